@@ -171,9 +171,10 @@ theorem contract_result_keys [DecidableEq V] (W : World V) (P : Parser V) (o : O
     | some v => simpa [hv] using he
   · right
     have hkk : kv.1 = k := by
-      cases hv : (additionContract W P.additionTyped o kv).1 with
-      | none => simp [hv] at he
-      | some v => simpa [hv] using he
+      generalize (additionContract W P.additionTyped (P.excludeVars.contains kv.1) o kv).1 = X at he
+      cases X with
+      | none => simp at he
+      | some v => simpa using he
     rw [List.mem_filter] at hkv
     rw [← hkk]
     unfold anyAccepts
@@ -228,8 +229,8 @@ also for a `no_output` field — and otherwise the deferred default (`defer_defa
 theorem C05_getattr_view [DecidableEq V] (W : World V) (LL : LowerLaws W) (P : Parser V) (hwf : P.wf W = true)
     (o : Opts V) (data : List (Key × V)) (hnd : (data.map (·.1)).Nodup) (m a : List (Key × V))
     (h : finish {} W P o (parseData {} W P o data) = .ok m a) :
-    ∀ kf ∈ P.fields, getattrView o kf.2 m a =
-      (dget kf.2.name (contract W P o data).result).orElse (fun _ => deferred o kf.2) := by
+    ∀ kf ∈ P.fields, getattrView W o kf.2 m a =
+      (dget kf.2.name (contract W P o data).result).orElse (fun _ => deferred W o kf.2) := by
   intro kf hf
   obtain ⟨h1, h2⟩ := (C05_attr_view W LL P hwf o data hnd m a h).1 kf hf
   unfold getattrView
@@ -312,6 +313,8 @@ def W₀ : World Nat where
   fp _ v := if v = 10 then some 1 else if v = 99 then none else some v
   pred _ v := v == 0
   addConv v := some v
+  copy v := v
+  schemaExcluded := [9]            -- key 9 = 'update', a method of Schema
 
 theorem W₀_laws : LowerLaws W₀ := by
   constructor
